@@ -436,17 +436,9 @@ def integer_first_prediction(run, verde, gen, rng, tier):
     knn = verde.KNeighbors(k=int(rng.integers(2, 4)), reduction=(np.max if rng.random() < 0.5 else np.min))
     chain = verde.Chain([("neighbours", knn), ("trend", verde.Trend(int(rng.integers(1, 3))))])
     chain.fit(*problem.args())
-    try:
-        chain.predict(problem.coordinates)
-        run.count("integer_first_prediction:returned")
-    except TypeError as exc:
-        if "Cannot cast ufunc" not in str(exc):
-            raise
-        # not a documented refusal: recorded and reported, but a raise is outside what the C06 monitors judge (DESIGN 1.5)
-        run.count("undocumented_exception:Chain.predict:UFuncTypeError(integer first prediction, float later)")
-        if not any("integer first prediction" in note for note in run.notes):
-            run.notes.append("Chain.predict raised %s for Chain[KNeighbors(reduction=max|min) > Trend] fitted on %s data (integer first prediction): %s"
-                             % (type(exc).__name__, problem.dtype_class, str(exc)[:160]))
+    # since the F12 repair (Chain.predict sums out of place) this returns; a raise escapes run_case and is a violation
+    chain.predict(problem.coordinates)
+    run.count("integer_first_prediction:returned")
 
 
 AMBIENT_FILES = ["test_chain.py", "test_vector.py", "test_base.py", "test_blockreduce.py"]
